@@ -2,6 +2,8 @@ package c14
 
 import (
 	"fmt"
+	"io"
+	"log"
 	"math/rand"
 	"sort"
 	"sync"
@@ -9,6 +11,7 @@ import (
 	"github.com/sirupsen/logrus"
 
 	"github.com/dfklegend/cell2/utils/logger"
+	"github.com/dfklegend/cell2/utils/runservice"
 
 	"verifh/hx"
 )
@@ -187,10 +190,174 @@ func genRandom(r *rand.Rand, maxLen int) []hx.T {
 	return append(ops, settle(0), doAll, settle(6))
 }
 
+// ---------------------------------------------------------------- service world
+
+var (
+	svcMark = hx.T{Name: "OSvc"}
+	start   = hx.T{Name: "OStart"}
+	runLoop = hx.T{Name: "ORun"}
+)
+
+func wait(g int64) hx.T     { return hx.C("OWait", g) }
+func stopSvc(by int64) hx.T { return hx.C("OStopSvc", by) }
+
+// two more rounds of expiry + released loop, then a grace period in which nothing may arrive or run
+func svcTail() []hx.T { return []hx.T{wait(0), runLoop, wait(0), runLoop, wait(6)} }
+
+// the owner's life cycle x {one-shot, repeating} x {callback panics or not} x durations
+func lifecycle() []job {
+	var out []job
+	for _, rep := range []bool{false, true} {
+		for _, pan := range []bool{false, true} {
+			for _, d := range []int64{0, 1, 3} {
+				body := func(pre ...any) []any {
+					p := append([]any{}, pre...)
+					if pan {
+						p = append(p, "APanic")
+					}
+					return p
+				}
+				name := fmt.Sprintf("rep=%v,panic=%v,d=%d", rep, pan, d)
+				add := func(lc string, ops ...hx.T) {
+					all := append(append([]hx.T{svcMark}, ops...), svcTail()...)
+					out = append(out, job{"lifecycle", all, []string{"lc-" + lc, name}})
+				}
+				tm := func(prog ...any) hx.T { return create(d, rep, 7, prog...) }
+				by := create(2, true, 9) // repeating bystander
+				one := create(1, false, 8)
+				nested := hx.C("ACreate", 1, true, 4, []any{})
+				// ---- start-up
+				add("created-and-due-before-start", tm(body()...), by, wait(0), start)
+				add("created-before-start-waits-long", tm(body()...), wait(0), stall(15), start)
+				add("created-before-due-after-start", create(25, rep, 7, body()...), one, start, wait(0), runLoop)
+				add("created-before-start-not-waited-for", tm(body()...), start)
+				add("cancelled-before-start-while-queued", tm(body()...), by, wait(0), cancel(0), start)
+				add("cancelled-before-start-while-armed", create(25, rep, 7, body()...), cancel(0), start, wait(0), runLoop)
+				add("never-started", tm(body()...), by, wait(0), cancel(1), wait(4))
+				add("callback-of-prestart-timer-creates", tm(body(nested)...), wait(0), start)
+				// ---- busy owner
+				add("busy-loop-queues-up", start, tm(body()...), by, one, wait(0), stall(10), runLoop)
+				add("busy-loop-cancel-queued", start, tm(body()...), by, wait(0), cancel(0), runLoop)
+				add("busy-loop-cancel-from-callback", start, tm(body()...), create(1, false, 8, hx.C("ACancel", 0)), wait(0), runLoop)
+				// ---- teardown
+				for _, who := range []int64{0, 1} {
+					w := fmt.Sprintf("-by%d", who)
+					add("stop-idle"+w, start, tm(body()...), wait(0), runLoop, stopSvc(who), runLoop)
+					add("stop-with-expiries-queued"+w, start, tm(body()...), by, one, stopSvc(who), runLoop)
+					add("stop-queued-then-create-cancel"+w, start, tm(body()...), by, stopSvc(who),
+						create(0, false, 5), create(1, true, 6), cancel(0), runLoop, create(1, false, 5), cancel(1))
+					add("stop-queued-callback-creates"+w, start, tm(body(nested)...), by, stopSvc(who), runLoop)
+					add("stop-armed-long"+w, start, create(20, rep, 7, body()...), stopSvc(who), runLoop)
+				}
+				add("stop-in-own-callback", start, tm(body("AStop")...), by, one, wait(0), runLoop)
+				add("stop-in-callback-then-create", start, tm(body("AStop", nested)...), by, wait(0), runLoop)
+				add("stop-in-callback-of-prestart-timer", tm(body("AStop")...), by, wait(0), start)
+				add("run-twice-after-stop", start, tm(body()...), stopSvc(0), runLoop, runLoop, start)
+			}
+		}
+	}
+	return out
+}
+
+// every op sequence of length L over a small service alphabet (after OSvc)
+func enumerateSvc(L int, emit func([]hx.T)) {
+	alpha := []hx.T{
+		create(2, true, 5), create(1, false, 6, "APanic"), cancel(0), wait(0), start, runLoop, stopSvc(0), stopSvc(1),
+	}
+	cur := make([]hx.T, L)
+	var rec func(d int)
+	rec = func(d int) {
+		if d == L {
+			emit(append(append([]hx.T{svcMark}, cur...), wait(0), runLoop, wait(4)))
+			return
+		}
+		for _, a := range alpha {
+			cur[d] = a
+			rec(d + 1)
+		}
+	}
+	rec(0)
+}
+
+func genSvcProg(r *rand.Rand, depth int, nT int64) []any {
+	p := []any{}
+	for n := r.Intn(4); n > 0; n-- {
+		switch x := r.Intn(12); {
+		case x < 2:
+			p = append(p, "ACancelSelf")
+		case x < 5:
+			p = append(p, hx.C("ACancel", r.Int63n(nT+2)))
+		case x < 8 && depth > 0:
+			d := 2 + r.Int63n(3)
+			if r.Intn(3) == 0 {
+				d = r.Int63n(2)
+			}
+			rep := r.Intn(2) == 0
+			if rep && d < 2 {
+				d = 2
+			}
+			p = append(p, hx.C("ACreate", d, rep, r.Int63n(100), genSvcProg(r, depth-1, nT)))
+		case x < 9:
+			p = append(p, "APanic")
+		case x < 10:
+			p = append(p, "AStop")
+		}
+	}
+	return p
+}
+
+func genSvcRandom(r *rand.Rand, maxLen int) []hx.T {
+	nT := int64(1 + r.Intn(4))
+	n := 2 + r.Intn(maxLen)
+	ops := []hx.T{svcMark}
+	created := int64(0)
+	started := r.Intn(3) == 0
+	if started {
+		ops = append(ops, start)
+	}
+	for len(ops) < n {
+		switch x := r.Intn(100); {
+		case x < 24 || created == 0:
+			rep := r.Intn(5) < 3
+			d := r.Int63n(6)
+			if rep && d < 2 {
+				d = 2 // a released loop must get to the end of its queue
+			}
+			ops = append(ops, create(d, rep, r.Int63n(100), genSvcProg(r, 2, nT)...))
+			created++
+		case x < 40:
+			ops = append(ops, cancel(r.Int63n(created+2)))
+		case x < 62:
+			g := int64(0)
+			if r.Intn(6) == 0 {
+				g = 1 + r.Int63n(4)
+			}
+			ops = append(ops, wait(g))
+		case x < 82:
+			if !started && r.Intn(2) == 0 {
+				ops = append(ops, start)
+				started = true
+			} else {
+				ops = append(ops, runLoop)
+			}
+		case x < 88:
+			ops = append(ops, start)
+			started = true
+		case x < 94:
+			ops = append(ops, stopSvc(int64(r.Intn(2))))
+		default:
+			ops = append(ops, stall(1+r.Int63n(3)))
+		}
+	}
+	return append(ops, wait(0), runLoop, wait(6))
+}
+
 // Run executes the jobs on a pool of owner goroutines (one fresh Mgr per case) and emits
 // the cases in generation order.
 func Run(cfg *hx.Config) error {
 	logger.GetLogProxy("exception").SetLogLevel(logrus.PanicLevel) // panic stacks of timer.do
+	log.SetOutput(io.Discard)                                      // "RunServeice loop end"
+	runservice.SetPerfLogLevel(runservice.LevelDisable)            // "heavy frame" (the parked loop)
 	var jobs []job
 	if cfg.In != "" {
 		cs, err := hx.ReadCases(cfg.In)
@@ -210,12 +377,25 @@ func Run(cfg *hx.Config) error {
 			L := L
 			enumerate(L, func(ops []hx.T) { jobs = append(jobs, job{fmt.Sprintf("exhaustive-%d", L), ops, nil}) })
 		}
+		jobs = append(jobs, lifecycle()...)
+		sdepth := 2
+		if cfg.Tier == "thorough" {
+			sdepth = 4
+		}
+		for L := 1; L <= sdepth; L++ {
+			L := L
+			enumerateSvc(L, func(ops []hx.T) { jobs = append(jobs, job{fmt.Sprintf("exhaustive-svc-%d", L), ops, nil}) })
+		}
 		for i := 0; i < cfg.N; i++ {
 			maxLen := 10
 			if i%4 == 3 {
 				maxLen = 28
 			}
-			jobs = append(jobs, job{"random", genRandom(cfg.Rng, maxLen), nil})
+			if i%2 == 0 {
+				jobs = append(jobs, job{"random", genRandom(cfg.Rng, maxLen), nil})
+			} else {
+				jobs = append(jobs, job{"random-svc", genSvcRandom(cfg.Rng, maxLen), nil})
+			}
 		}
 	}
 	type result struct {
